@@ -16,6 +16,8 @@ pub fn run() {
         let want = if gets(&c, "how") == "byte" { vec![0x5a; len] } else { payload(id as u64, len) };
         let mut ok = true;
         let mut why = String::new();
+        let fds_before = list_fds().len() as i64;
+        let maps_before = list_shared_maps().len() as i64;
         if gets(&c, "level") == "platform" {
             let m = if gets(&c, "how") == "byte" { OsIpcSharedMemory::from_byte(0x5a, len) } else { OsIpcSharedMemory::from_bytes(&want) };
             if &m[..] != &want[..] {
@@ -62,6 +64,14 @@ pub fn run() {
                     why = format!("recv failed {:?}", e);
                 },
             }
+        }
+        // every handle of this case is gone: the ledger must be empty and /proc must agree (C11 for these shapes)
+        let fd_delta = list_fds().len() as i64 - fds_before;
+        let map_delta = list_shared_maps().len() as i64 - maps_before;
+        verif::emit("quiesce", &[("fd", fd_delta), ("len", map_delta)]);
+        if ok && (fd_delta != 0 || map_delta != 0) {
+            ok = false;
+            why = format!("descriptors/mappings left behind after every handle was dropped: fd {:+} map {:+}", fd_delta, map_delta);
         }
         out_line(&json!({"id": id, "ok": ok, "why": why}));
     }
